@@ -165,3 +165,80 @@ LEMMAS = {
                stubs=['FP add/sub/mul/div/sqrt := uninterpreted functions of (rounding mode, operands) on both sides', 'int32->double := uninterpreted i2d with the proved fact low22(i2d(x))=0', 'randomx_reciprocal := uninterpreted rcp (lemma R1)'],
                outside='IEEE arithmetic itself (same abstract op on both sides)'),
 }
+
+# ------------------------------------------------------------------------------------------------ I4 / I6 (C07)
+def run_I4(ctx, case):
+    """CBRANCH arithmetic on the constants produced by the real decoder: a branch cannot be taken three times in a row"""
+    q = Q(120); mod = Module(ctx['ll']['vmcore']); S = VMState(); lo, hi = P.RANGE['CBRANCH']
+    W = dict(opcode=z3.BitVecVal(lo, 8), dst=z3.BitVec('dst', 8), src=z3.BitVec('src', 8), mod=z3.BitVec('mod', 8), imm32=z3.BitVec('imm32', 32))
+    it = Interp(mod); bind_common(it); nreg, bm, cfg, sp = place_state(it, S, mod)
+    ins = it.mem.alloc(8, 'ins')
+    for k, nm in enumerate(('opcode', 'dst', 'src', 'mod')): it.mem.store(Ptr('ins', k), W[nm] if nm != 'opcode' else lo, 1)
+    it.mem.store(Ptr('ins', 4), W['imm32'], 4); ibc = it.mem.alloc(32, 'ibc')
+    it.call(COMPILE, [bm, ins, 7, ibc])
+    c = bv(it.mem.load(Ptr('ibc', 16), 8), 64); m = z3.ZeroExt(32, bv(it.mem.load(Ptr('ibc', 28), 4), 32)); pc = it.fork['pc']
+    b = z3.ZeroExt(60, z3.Extract(7, 4, W['mod'])) + P.JUMP_OFFSET
+    q.prove(pc, m == (z3.BitVecVal((1 << P.JUMP_BITS) - 1, 64) << b), 'condition mask = RANDOMX_JUMP_BITS ones starting at bit b = mod.cond + RANDOMX_JUMP_OFFSET')
+    q.prove(pc, z3.And((c >> b) & 1 == 1, (c >> (b - 1)) & 1 == 0), 'cimm has bit b set and bit b-1 clear')
+    q.prove(pc, (c & ~((z3.BitVecVal(3, 64) << (b - 1)))) == (z3.SignExt(32, W['imm32']) & ~(z3.BitVecVal(3, 64) << (b - 1))), 'all other bits of cimm are the sign-extended imm32')
+    d = z3.BitVec('d', 64); t = lambda x: (x & m) == 0
+    q.prove(pc, z3.Not(z3.And(t(d + c), t(d + 2 * c), t(d + 3 * c))), 'for every register value d: the branch is not taken on three consecutive evaluations (d+c, d+2c, d+3c)')
+    q.check(pc, z3.Not(z3.And(t(d + c), t(d + 2 * c))), 'witness: two consecutive taken branches are possible (the bound 3*|P| is tight)', abstract=False)
+    # the witness query must be SAT: undo its bookkeeping as a failure
+    if q.failed and q.failed[-1][0].startswith('witness'): q.failed.pop(); q.sat -= 1; q.unsat += 1
+    else: q.failed.append(('vacuity: no state takes the branch twice in a row', {}))
+    return result('I4', 'cbranch constants', q, paths=1)
+
+def run_I6(ctx, case):
+    """N symbolic instruction words compiled by the real compileInstruction and run through the real executeInstruction in the
+    executeBytecode loop: executed-instruction count <= 3N for all register states (the fork bound is the unwinding assertion)"""
+    N = case['N']; q = Q(60); mod = Module(ctx['ll']['vmcore']); S = VMState(); lo, hi = P.RANGE['CBRANCH']
+    # instruction mix: every instruction is either a CBRANCH or an integer instruction able to modify registers (the cases that matter for termination)
+    words = [dict(opcode=z3.BitVec('op%d' % k, 8), dst=z3.BitVec('dst%d' % k, 8), src=z3.BitVec('src%d' % k, 8), mod=z3.BitVec('mod%d' % k, 8), imm32=z3.BitVec('imm%d' % k, 32)) for k in range(N)]
+    maxcount = [0]; npaths = [0]; flags = z3.BitVec('flags', 32)
+    allowed = case['ops']
+    def one(fk):
+        it = Interp(mod); it.fork = fk; bind_common(it); nreg, bm, cfg, sp = place_state(it, S, mod)
+        for k in range(8): it.mem.store(Ptr('bm', 4 * k), 0xffffffff, 4)       # beginCompilation
+        fk['pc'] += [w['opcode'] == o for w, o in zip(words, allowed)]
+        bc = it.mem.alloc(32 * N, 'bytecode')
+        for k in range(0, 32 * N, 8): it.mem.store(Ptr('bytecode', k), z3.BitVec('bc_stale%d' % k, 64), 8)
+        for k, w in enumerate(words):
+            ins = it.mem.alloc(8, 'ins%d' % k)
+            for j, nm in enumerate(('opcode', 'dst', 'src', 'mod')): it.mem.store(Ptr('ins%d' % k, j), w[nm], 1)
+            it.mem.store(Ptr('ins%d' % k, 4), w['imm32'], 4)
+            it.call(COMPILE, [bm, Ptr('ins%d' % k, 0), k, Ptr('bytecode', 32 * k)])
+        pcv = it.mem.alloc(4, 'pc'); count = 0; pc_ = 0
+        while pc_ < N:
+            it.mem.store(pcv, pc_, 4)
+            it.call(EXECUTE, [Ptr('bytecode', 32 * pc_), pcv, sp, cfg, flags]); count += 1
+            nv = it.mem.load(pcv, 4)
+            if not is_c(nv): nv = it.concretize(z3.ZeroExt(32, nv), [v & 0xffffffff for v in range(-1, N)])      # which earlier instruction the branch returns to: solver-enumerated
+            nv = nv - (1 << 32) if nv >> 31 else nv
+            pc_ = nv + 1
+            if count > 3 * N:
+                q.n += 1; q.sat += 1; sol = z3.Solver(); sol.add(*fk['pc']); sol.check()
+                q.failed.append(('a %d-instruction program executes more than %d instructions in one iteration' % (N, 3 * N), model_dict(sol.model()))); return
+        npaths[0] += 1; maxcount[0] = max(maxcount[0], count)
+    res, nq = explore(one, limit=case.get('limit', 4000)); q.n += nq; q.unsat += npaths[0]; q.n += npaths[0]
+    return result('I6', 'N=%d ops=%s' % (N, allowed), q, paths=npaths[0], detail='%d paths, longest execution %d instructions (bound %d)' % (npaths[0], maxcount[0], 3 * N))
+
+def jobs_I6(ctx):
+    import itertools
+    cb = P.RANGE['CBRANCH'][0]; iadd = P.RANGE['IADD_RS'][0]; isub = P.RANGE['ISUB_R'][0]; swap = P.RANGE['ISWAP_R'][0]; rcp = P.RANGE['IMUL_RCP'][0]
+    J = []
+    sets = [(2, [cb, iadd]), (3, [cb, iadd]), (3, [cb, swap, rcp])] if ctx['tier'] == 'quick' else [(2, [cb, iadd, isub, swap, rcp]), (3, [cb, iadd, swap, rcp]), (4, [cb, iadd])]
+    seen = set()
+    for N, ops in sets:
+        for combo in itertools.product(ops, repeat=N):
+            if cb not in combo or combo in seen: continue       # programs without a branch execute exactly N instructions
+            seen.add(combo); J.append(dict(N=N, ops=list(combo), limit=40000))
+    return J
+
+LEMMAS['I4'] = dict(jobs=lambda ctx: ['cbranch'], run=run_I4, units=['vmcore'], functions=['BytecodeMachine::compileInstruction (CBRANCH arm)'],
+    doc='the CBRANCH immediate and mask built by the real decoder: mask = JUMP_BITS ones at bit b, cimm bit b set / b-1 clear, and for every register value not three consecutive taken evaluations',
+    bound='all imm32, mod.cond, register values', symbolic='imm32, mod, d', stubs=[])
+LEMMAS['I6'] = dict(jobs=jobs_I6, run=run_I6, units=['vmcore'], functions=['BytecodeMachine::compileInstruction', 'BytecodeMachine::executeInstruction', 'executeBytecode loop (re-stated: pc=0; while pc<N: execute; ++pc)'],
+    doc='bounded programs: N symbolic instruction words, compiled and executed by the real code from any register state, execute at most 3N instructions per iteration',
+    bound='N = 2,3 (quick) / up to 4; the instruction kind of each position enumerated over {CBRANCH, IADD_RS, ISWAP_R, IMUL_RCP(, ISUB_R)} (every sequence containing a branch), all other fields (dst, src, mod, imm32) and all registers symbolic; fork bound = unwinding assertion', symbolic='instruction words, registers', stubs=['executeBytecode loop re-stated in the harness (2 lines)'],
+    outside='longer programs (covered by the inductive argument I1+I4+J1, on paper)')
